@@ -439,9 +439,10 @@ func c09Scenarios(c *hx.Ctx) []*scenario {
 
 func c10Basic() []*scenario {
 	var out []*scenario
-	for _, early := range []bool{false, true} {
-		cfg := cfgT{clean: false, validate: true, callback: true, early: early}
-		tag := fmt.Sprintf("early%s", hx.B01(early))
+	for mi := 0; mi < 4; mi++ {
+		early, clean := mi&1 == 1, mi&2 == 2
+		cfg := cfgT{clean: clean, validate: true, callback: true, early: early}
+		tag := fmt.Sprintf("early%s-clean%s", hx.B01(early), hx.B01(clean))
 		out = append(out,
 			&scenario{name: "basic/q2in-" + tag, steps: cat(opening(cfg, 1, false),
 				[]step{sB(inPub(7, 2, false)), sIdle(), sB(&packet.Pubrel{ID: 7}), sIdle(), sDisc(2, false)})},
@@ -549,6 +550,7 @@ func c10Enumerate(c *hx.Ctx) []*scenario {
 		{"early", cfgT{validate: true, callback: true, early: true}},
 		{"nocb", cfgT{validate: true}},
 		{"clean", cfgT{clean: true, validate: true, callback: true}},
+		{"early-clean", cfgT{clean: true, validate: true, callback: true, early: true}},
 	}
 	depth, ids := 3, 2
 	if c.Thorough() {
@@ -573,7 +575,7 @@ func c10Enumerate(c *hx.Ctx) []*scenario {
 	for _, m := range modes {
 		for si, sc := range scripts {
 			// quick: every script in the default mode, a seeded share in the other modes
-			if !c.Thorough() && m.tag != "default" && c.Rng.Intn(4) != 0 {
+			if !c.Thorough() && m.tag != "default" && len(sc) > 2 && c.Rng.Intn(4) != 0 {
 				continue
 			}
 			_ = si
@@ -653,7 +655,7 @@ func c10Enumerate(c *hx.Ctx) []*scenario {
 		}
 	}
 	// the callback is held at a gate: while it has not returned nothing may be acknowledged
-	for _, m := range modes[:2] {
+	for _, m := range []mode{modes[0], modes[1], modes[3], modes[4]} {
 		held := func(name string, pre []step, p packet.Generic) *scenario {
 			return &scenario{name: "gate/" + m.tag + "-" + name, gates: []gateSpec{{kind: "cb", k: 1, name: "g"}},
 				steps: cat(opening(m.cfg, 1, false), pre, []step{{op: "bdrain"}, sB(p), sWaitGate("g"), {op: "bnone", n: 40}, sRelease("g"), sIdle(), sDisc(2, false)})}
@@ -676,7 +678,19 @@ func c10Enumerate(c *hx.Ctx) []*scenario {
 		[]bact{p(1, 1), p(2, 2), {kind: "pub", id: 2, q: 2, dup: true}, r(2), r(2), x, p(2, 2), r(2)},
 		[]bact{p(1, 2), x, r(1), x, r(1), p(3, 1)},
 	)
-	for _, m := range modes[:3] {
+	// the callback fails with errors of several kinds, in every mode, at every invocation of three short scripts:
+	// no acknowledgement afterwards and the connection is closed, whatever the error looks like
+	for _, m := range []mode{modes[0], modes[1], modes[3], modes[4]} {
+		for ki, kn := range cbErrKinds {
+			for bi, b := range [][]bact{{p(1, 1), p(0, 0)}, {p(1, 2), r(1), p(2, 1)}, {p(0, 0), p(1, 2), r(1)}} {
+				for k := 1; k <= 2; k++ {
+					out = append(out, &scenario{name: fmt.Sprintf("cberr/%s-%s-b%d@%d", m.tag, kn, bi, k), cbErr: ki,
+						failAt: map[string]int{"cb": k}, steps: c10Script(m.cfg, b)})
+				}
+			}
+		}
+	}
+	for _, m := range []mode{modes[0], modes[1], modes[2], modes[4]} {
 		for bi, b := range base {
 			for kind, lim := range map[string]int{"cb": 5, "send": 8, "send+": 8, "save": 3, "lookup": 4, "delete": 3, "all": 3, "recv": 6} {
 				lo := 1
